@@ -57,6 +57,10 @@ def runMember (m : Member) (recv : Val) (args : List Val) (flag : String) : Stri
   | some code => withSpec ("perr " ++ toString code) spec (KF.memberRegion m recv args)
   | none =>
     let r := memberCall m recv args (flag == "const")
+    -- A hazard outcome names its own region (`C09.<member>.<hazard>`). None is reachable on well-formed values since
+    -- the typed-null dereference of the type-mixing branch was repaired (9e8652f; Proofs/C09 `table_methods_no_hazard`);
+    -- the ids C09.{put,insert,concat,set}.nullDeref are `fixed` in known_findings.json, so a model that reached such an
+    -- outcome again would be reported as a violation (region not listed as known), never suppressed.
     let kf := match r with
       | .haz h => some ("C09." ++ memberName m ++ "." ++ hazName h)
       | _ => KF.memberRegion m recv args
